@@ -20,6 +20,12 @@ the schedule, for every start state of the tracer.
   ever writes again, each raises `TracingAbortedException`;
 * `nonterminating_reports_timeout`, `wait_bound`: a thread still alive after the first join yields a
   fresh timeout result, and `execute` blocks in `join` for at most `min(max, per_stmt*size) + max`.
+* `result_comes_from_own_thread`, `late_put_never_reaches_other_execution`, `history_result_sound`,
+  `abandoned_execution_reports_fresh_timeout`: the result hand-over.  A *history* adds to the tracer
+  calls the `put`s of the test threads — also of abandoned ones that finish arbitrarily late — and the
+  `collect`s of the main thread.  With the code's queue per execution, whatever `execute` number `k`
+  returns was put by the thread of execution `k` and is the solo result of that test case;
+  `shared_queue_cex`: with one queue for the executor's lifetime it is not.
 * `stale_exit_aborts_current` documents what the code does in addition (not demanded by C32): the
   `__exit__` of a dying abandoned thread calls `stop()` and thereby aborts the execution that is
   current at that moment — that execution then reports a (spurious) timeout; results get lost, never
@@ -168,6 +174,104 @@ theorem wait_bound (maxT perStmt size : Nat) :
     waitBound maxT perStmt size ≤ 2 * maxT ∧ firstJoin maxT perStmt size ≤ perStmt * size := by
   unfold waitBound firstJoin
   omega
+
+/-! ### The result hand-over (`return_queue`) -/
+
+/-- **An abandoned execution reports a fresh timeout** and leaves every queue as it is (`if timed_out:
+result = ExecutionResult(timeout=True)` — the queue is not read), whatever the queue discipline. -/
+theorem abandoned_execution_reports_fresh_timeout (m : QMode) (h : H) (k : Nat) :
+    hstep m h (.collect k true) = (h, some (k, .timeout)) := by
+  simp [hstep]
+
+/-- **With a queue per execution, the result returned for execution `k` was produced by thread `k`.**
+For every history on a new executor — tracer calls of any threads in any interleaving, `put`s of
+abandoned threads that finish arbitrarily late (in the grace period, between later executions, in the
+middle of a later execution), any number of executions —: whenever `execute` number `k` returns a result
+that is not a timeout, that result was `put` by the thread of execution `k` itself, and its trace is
+that thread's own thread-local trace at the moment of the `put`. -/
+theorem result_comes_from_own_thread (s : T) (es : List HEv) (k p : Nat) (r : Res)
+    (hm : (k, HResult.ok p r) ∈ hresults .perExecution (H.init s) es) :
+    p = k ∧ ∃ pre t exc post, es = pre ++ HEv.put k t exc :: post
+      ∧ r = ⟨((run s (callsOf pre)).loc t).trace, exc⟩ := by
+  have hp := hresults_own (H.init s) es (qown_init s) k p r hm
+  refine ⟨hp, ?_⟩
+  rcases hresults_provenance _ _ es k p r hm with ⟨i, hi⟩ | ⟨pre, t, exc, post, he, hr⟩
+  · simp [H.init] at hi
+  · subst hp
+    exact ⟨pre, t, exc, post, he, by rw [hr, hfinal_tr]; rfl⟩
+
+/-- **The late `put` of an abandoned execution never reaches a later execution**: no `execute` ever
+returns a result produced by another execution's thread. -/
+theorem late_put_never_reaches_other_execution (s : T) (es : List HEv) (k p : Nat) (r : Res)
+    (hpk : p ≠ k) : (k, HResult.ok p r) ∉ hresults .perExecution (H.init s) es :=
+  fun hm => hpk (result_comes_from_own_thread s es k p r hm).1
+
+/-- **History level: a result that is not a timeout is the solo result of that very test case.**
+The thread of execution `k` puts its result only at the end of an unaborted `_execute_test_case` over
+the statements `stmts` (`hput`: that is the code — `put` is its last action, `except
+TracingAbortedException: return` skips it); everything else — other executions' threads, their tracer
+calls and their late `put`s — is arbitrary.  Then whatever `execute` number `k` returns, if it is not a
+timeout, carries the import trace plus exactly the events of `stmts`. -/
+theorem history_result_sound (s : T) (es : List HEv) (k p : Nat) (r : Res) (stmts : List Stmt)
+    (h : noImportOps (callsOf es) = true)
+    (hput : ∀ pre t exc post, es = pre ++ HEv.put k t exc :: post →
+      opsOf t (callsOf pre) = execOps stmts ∧ raisedBy t s (callsOf pre) = false)
+    (hm : (k, HResult.ok p r) ∈ hresults .perExecution (H.init s) es) :
+    p = k ∧ r.trace = soloTrace s.imp stmts := by
+  obtain ⟨hp, pre, t, exc, post, he, hr⟩ := result_comes_from_own_thread s es k p r hm
+  refine ⟨hp, ?_⟩
+  obtain ⟨hops, hnr⟩ := hput pre t exc post he
+  have hpre : noImportOps (callsOf pre) = true := by
+    rw [he, callsOf_append] at h
+    simp only [noImportOps, List.all_append, Bool.and_eq_true] at h ⊢
+    exact h.1
+  rw [hr]
+  show ((run s (callsOf pre)).loc t).trace = _
+  rw [delivered_eq_solo s t _ hpre hnr, hops, soloRun_execOps]
+
+/-- A *late finisher*: execution 0 (thread 1) records line 5, passes its last `check()` and then sits
+in a slow after-statement observer; the first join expires (`stop()`), the thread finishes in the grace
+period and puts its result; execution 0 is reported as a timeout.  Execution 1 (thread 2, line 7, raises
+exception 1 in statement 0) and execution 2 (thread 3, line 9) are ordinary. -/
+def lateFinisher : List HEv :=
+  [.call ⟨1, .initTrace⟩, .call ⟨1, .enter⟩, .call ⟨1, .check⟩, .call ⟨1, .disable⟩, .call ⟨1, .enable⟩,
+   .call ⟨1, .cb (.line 5)⟩, .call ⟨1, .check⟩, .call ⟨1, .disable⟩,
+   .call ⟨0, .stop⟩,
+   .call ⟨1, .enable⟩, .call ⟨1, .exit⟩, .put 0 1 [],
+   .collect 0 true,
+   .call ⟨2, .initTrace⟩, .call ⟨2, .enter⟩, .call ⟨2, .check⟩, .call ⟨2, .disable⟩, .call ⟨2, .enable⟩,
+   .call ⟨2, .cb (.line 7)⟩, .call ⟨2, .check⟩, .call ⟨2, .disable⟩, .call ⟨2, .enable⟩,
+   .call ⟨2, .exit⟩, .put 1 2 [(0, 1)],
+   .collect 1 false,
+   .call ⟨3, .initTrace⟩, .call ⟨3, .enter⟩, .call ⟨3, .check⟩, .call ⟨3, .disable⟩, .call ⟨3, .enable⟩,
+   .call ⟨3, .cb (.line 9)⟩, .call ⟨3, .check⟩, .call ⟨3, .disable⟩, .call ⟨3, .enable⟩,
+   .call ⟨3, .exit⟩, .put 2 3 [],
+   .collect 2 false]
+
+/-- The code: every execution gets its own result. -/
+example : hresults .perExecution (H.init T.init) lateFinisher =
+    [(0, .timeout), (1, .ok 1 ⟨⟨[], [7], [], [], []⟩, [(0, 1)]⟩), (2, .ok 2 ⟨⟨[], [9], [], [], []⟩, []⟩)] := by
+  decide
+
+/-- **One queue for the executor's lifetime breaks the property**: after the late finisher every
+execution gets the result of the previous one — execution 1 is handed line 5 (issued by the abandoned
+thread only), execution 2 is handed line 7 and the exception of execution 1. -/
+theorem shared_queue_cex :
+    hresults .shared (H.init T.init) lateFinisher =
+      [(0, .timeout), (1, .ok 0 ⟨⟨[], [5], [], [], []⟩, []⟩), (2, .ok 1 ⟨⟨[], [7], [], [], []⟩, [(0, 1)]⟩)]
+    ∧ ¬ (∀ (es : List HEv) (k p : Nat) (r : Res),
+          (k, HResult.ok p r) ∈ hresults .shared (H.init T.init) es → p = k) := by
+  have h1 : hresults .shared (H.init T.init) lateFinisher =
+      [(0, .timeout), (1, .ok 0 ⟨⟨[], [5], [], [], []⟩, []⟩),
+       (2, .ok 1 ⟨⟨[], [7], [], [], []⟩, [(0, 1)]⟩)] := by decide
+  refine ⟨h1, fun hall => ?_⟩
+  have := hall lateFinisher 1 0 ⟨⟨[], [5], [], [], []⟩, []⟩ (by rw [h1]; simp)
+  omega
+
+/-- The hypotheses of `history_result_sound` hold on the late-finisher history for execution 1. -/
+example : noImportOps (callsOf lateFinisher) = true := by decide
+example : opsOf 2 (callsOf (lateFinisher.take 23)) = execOps [⟨[], [.line 7], []⟩]
+    ∧ raisedBy 2 T.init (callsOf (lateFinisher.take 23)) = false := by decide
 
 /-! ### What the code does beyond the property -/
 
